@@ -252,6 +252,8 @@ class VCGen:
             return default(want), want
         if want.k == 'lref' and t.k == 'lref':
             return v, want
+        if want.k == 'ref' and t.k == 'ref':       # subclass instance where the base class is expected (same integer reference)
+            return v, want
         raise Unsupported(f'cannot coerce {t} to {want}')
 
     def to_fp(s, v, t):
@@ -307,6 +309,11 @@ class VCGen:
             raise Unsupported(f'truthiness of {t}')
         if t == NONE:
             return BoolVal(False)
+        if t == PYVAL:
+            P = s.pv()
+            lv, lt = s.pv_list(v, st)
+            return Or(And(P.is_pI(v), P.iv(v) != 0), And(P.is_pF(v), P.fv(v) != 0), And(P.is_pS(v), Length(P.sv(v)) != 0), And(P.is_pB(v), P.bv(v)),
+                      And(P.is_pT(v), P.tlen(v) != 0), And(P.is_pL(v), L_len(lv, lt) != 0), P.is_pO(v))
         raise Unsupported(f'truthiness of {t}')
 
     def member(s, x, tx, lv, lt):
@@ -344,6 +351,41 @@ class VCGen:
             if inner:
                 out.append(ForAll([k], And(*inner)))
         return out
+
+    # ---------------------------------------------------------------- dynamically typed values (PyVal)
+    def pv(s):
+        return sort(PYVAL)
+
+    def pv_isinstance(s, v, names):
+        P = s.pv()
+        alts = []
+        for n_ in names:
+            if n_ == 'list':
+                alts.append(P.is_pL(v))
+            elif n_ == 'tuple':
+                alts.append(P.is_pT(v))
+            elif n_ == 'str':
+                alts.append(P.is_pS(v))
+            elif n_ == 'int':
+                alts += [P.is_pI(v), P.is_pB(v)]      # bool is a subclass of int
+            elif n_ == 'float':
+                alts.append(P.is_pF(v))
+            elif n_ == 'bool':
+                alts.append(P.is_pB(v))
+            elif n_ == 'dict':
+                alts.append(BoolVal(False))
+            else:
+                raise Unsupported(f'isinstance with {n_}')
+        return Or(*alts)
+
+    def pv_num(s, v, st, line, what):
+        """numeric reading of a PyVal in an ordering comparison: TypeError unless it is an int, bool or float"""
+        P = s.pv()
+        s.safe(st, f'typed:{what}-is-a-number', Or(P.is_pI(v), P.is_pB(v), P.is_pF(v)), line)
+        return If(P.is_pI(v), ToReal(P.iv(v)), If(P.is_pB(v), If(P.bv(v), RealVal(1), RealVal(0)), P.fv(v))), REAL
+
+    def pv_list(s, v, st):
+        return st.lheap[PYVAL][s.pv().lref(v)], LIST(PYVAL)
 
     # ---------------------------------------------------------------- expressions
     def ev(s, e, st):
@@ -396,7 +438,8 @@ class VCGen:
         raise Unsupported(f'unbound name {nm} at line {getattr(e, "lineno", "?")}')
 
     def field_type(s, attr, objt):
-        ft = s.fields.get(attr)
+        ov = getattr(s, 'cur', {}).get('fields_override') if hasattr(s, 'cur') else None
+        ft = (ov or s.fields).get(attr)
         if ft is None:
             raise Unsupported(f'unknown field {attr}')
         if callable(ft):
@@ -423,6 +466,15 @@ class VCGen:
         if isinstance(e.slice, ast.Slice):
             raise Unsupported('slice')
         i, ti = s.ev(e.slice, st)
+        if t == PYVAL:
+            P = s.pv()
+            k = s.const_index(i)
+            if k not in (0, 1):
+                raise Unsupported('PyVal subscript other than [0] / [1]')
+            if not s.specmode:
+                s.safe(st, 'typed:subscript-of-tuple', P.is_pT(b), e.lineno)
+                s.safe(st, 'index', P.tlen(b) > k, e.lineno)
+            return (P.t0(b) if k == 0 else P.t1(b)), PYVAL
         if t == TRANS:
             k = s.const_index(i)
             if k == 1 or k == -1:
@@ -551,17 +603,24 @@ class VCGen:
         raise Unsupported('unary op')
 
     def ev_BoolOp(s, e, st):
-        # short-circuit: safety obligations of later operands are checked under the earlier ones
+        # short-circuit: later operands are evaluated (and their safety obligations checked) under the earlier ones;
+        # facts their evaluation establishes are carried back guarded by that condition
         vals = []
-        st2 = st
+        guards = []
         for i, x in enumerate(e.values):
-            v, t = s.ev(x, st2)
-            b = s.truthy(v, t, st2)
+            if guards and not s.specmode:
+                st2 = st.clone()
+                st2.pc += guards
+                n0 = len(st2.pc)
+                v, t = s.ev(x, st2)
+                b = s.truthy(v, t, st2)
+                for f in st2.pc[n0:]:
+                    st.pc.append(Implies(And(*guards), f))
+            else:
+                v, t = s.ev(x, st)
+                b = s.truthy(v, t, st)
             vals.append(b)
-            if i + 1 < len(e.values) and not s.specmode:
-                st2 = st2.clone_light() if hasattr(st2, 'clone_light') else st2.clone()
-                st2.pc.append(b if isinstance(e.op, ast.And) else Not(b))
-                st2._parent = st
+            guards.append(b if isinstance(e.op, ast.And) else Not(b))
         return (And(*vals) if isinstance(e.op, ast.And) else Or(*vals)), BOOL
 
     def cmp(s, op, a, ta, b, tb, st, line):
@@ -580,7 +639,9 @@ class VCGen:
                 raise Unsupported(f'in {tb}')
             return Not(r) if isinstance(op, ast.NotIn) else r
         if isinstance(op, (ast.Is, ast.IsNot)):
-            if tb == NONE and ta.k == 'opt':
+            if tb == NONE and ta == PYVAL:
+                r = s.pv().is_pN(a)
+            elif tb == NONE and ta.k == 'opt':
                 r = Ty.S(ta).isnone(a)
             elif tb == NONE and ta == NONE:
                 r = BoolVal(True)
@@ -616,7 +677,13 @@ class VCGen:
             else:
                 raise Unsupported(f'== between {ta} and {tb}')
             return Not(r) if isinstance(op, ast.NotEq) else r
-        if s.specmode and {ta.k, tb.k} <= {'ref', 'lref', 'int'}:
+        if PYVAL in (ta, tb):
+            if ta == PYVAL:
+                a, ta = s.pv_num(a, st, line, 'left-operand')
+            if tb == PYVAL:
+                b, tb = s.pv_num(b, st, line, 'right-operand')
+            a2, b2, t = s.num2(a, ta, b, tb)
+        elif s.specmode and {ta.k, tb.k} <= {'ref', 'lref', 'int'}:
             a2, b2, t = a, b, INT       # references are integers; contracts compare them with allocation counters
         else:
             a2, b2, t = s.num2(a, ta, b, tb)
@@ -863,6 +930,28 @@ class VCGen:
                     if ta != tb:
                         a, b, ta = s.num2(a, ta, b, tb)
                     return If(c, a, b), ta
+                if nm in ('is_list', 'is_tuple', 'is_str', 'is_int', 'is_float', 'is_none', 'is_bool'):
+                    a, _ = s.ev(e.args[0], st)
+                    P = s.pv()
+                    return {'is_list': P.is_pL, 'is_tuple': P.is_pT, 'is_str': P.is_pS, 'is_int': lambda x: Or(P.is_pI(x), P.is_pB(x)),
+                            'is_float': P.is_pF, 'is_none': P.is_pN, 'is_bool': P.is_pB}[nm](a), BOOL
+                if nm in ('tlen', 'slot0', 'slot1', 'intval', 'plist', 'strval'):
+                    a, _ = s.ev(e.args[0], st)
+                    P = s.pv()
+                    if nm == 'tlen':
+                        return P.tlen(a), INT
+                    if nm == 'slot0':
+                        return P.t0(a), PYVAL
+                    if nm == 'slot1':
+                        return P.t1(a), PYVAL
+                    if nm == 'intval':
+                        return If(P.is_pB(a), If(P.bv(a), IntVal(1), IntVal(0)), P.iv(a)), INT
+                    if nm == 'strval':
+                        return P.sv(a), STR
+                    return st.lheap[PYVAL][P.lref(a)], LIST(PYVAL)
+                if nm == 'truthy':
+                    a, ta = s.ev(e.args[0], st)
+                    return s.truthy(a, ta, st), BOOL
                 if nm == 'fp':
                     from z3 import FPVal, Float64
                     return FPVal(float(ast.literal_eval(e.args[0])), Float64()), FP
@@ -968,6 +1057,11 @@ class VCGen:
     # builtins
     def bi_len(s, e, st):
         v, t = s.ev(e.args[0], st)
+        if t == PYVAL:
+            P = s.pv()
+            s.safe(st, 'typed:len-of-sized', Or(P.is_pT(v), P.is_pL(v), P.is_pS(v)), e.lineno)     # len(None), len(5) raise TypeError
+            lv, lt = s.pv_list(v, st)
+            return If(P.is_pT(v), P.tlen(v), If(P.is_pL(v), L_len(lv, lt), Length(P.sv(v)))), INT
         if t == STR:
             return Length(v), INT
         if t.k == 'opt' and t.a[0].k == 'list':
@@ -1025,7 +1119,13 @@ class VCGen:
         return s.fmt(v, t), STR
 
     def bi_isinstance(s, e, st):
-        raise Unsupported('isinstance outside PyVal mode')
+        v, t = s.ev(e.args[0], st)
+        c = e.args[1]
+        names = [x.id for x in c.elts] if isinstance(c, ast.Tuple) else [c.id]
+        if t == PYVAL:
+            return s.pv_isinstance(v, names), BOOL
+        static = {'list': t.k in ('list', 'lref'), 'tuple': t.k in ('tup', 'trans'), 'str': t == STR, 'int': t in (INT, BOOL), 'float': t == REAL, 'dict': t.k == 'dict'}
+        return BoolVal(any(static.get(n_, False) for n_ in names)), BOOL
 
     def _minmax(s, e, st, ismax):
         if len(e.args) >= 2:
@@ -1040,7 +1140,14 @@ class VCGen:
         if lt.k != 'list' or lt.a[0] not in (INT, REAL):
             raise Unsupported('min/max of non-numeric list')
         n = L_len(lv, lt)
-        s.safe(st, 'minmax-nonempty', n > 0, e.lineno)
+        if s.cur.get('minmax_empty_raises') and not s.specmode:
+            # CPython: min([]) / max([]) raise ValueError; that exit is checked against the `raises` clause here
+            t0 = st.clone()
+            t0.pc.append(n <= 0)
+            s.exit_raise(t0, 'ValueError', None, e.lineno)
+            st.pc.append(n > 0)
+        else:
+            s.safe(st, 'minmax-nonempty', n > 0, e.lineno)
         r = fresh('mx' if ismax else 'mn', lt.a[0])
         k = fresh_int('k')
         a = L_arr(lv, lt)
@@ -1296,6 +1403,10 @@ class VCGen:
         if isinstance(it, ast.Call) and isinstance(it.func, ast.Attribute) and it.func.attr == 'items':
             raise Unsupported('dict.items() iteration')
         v, t = s.ev(it, st)
+        if t == PYVAL:
+            P = s.pv()
+            s.safe(st, 'typed:iterate-a-list', P.is_pL(v), it.lineno)
+            v, t = P.lref(v), LREF(PYVAL)
         if t.k == 'lref':
             e0 = t.a[0]
 
@@ -1420,6 +1531,16 @@ class VCGen:
         if s.is_dropped_call(c):
             return [st]
         if isinstance(c, ast.Call):
+            if isinstance(c.func, ast.Attribute) and c.func.attr == 'append' and len(c.args) == 1 and isinstance(c.args[0], ast.Call) \
+                    and isinstance(c.args[0].func, ast.Name) and c.args[0].func.id in s.cur.get('constructors', {}):
+                # x.append(Cls(...)): evaluate the constructor call first (it may raise), then append its result
+                tmp = ast.copy_location(ast.Name(id='__hoisted', ctx=ast.Store()), c)
+                outs = s.call_stmt(c.args[0], tmp, st, n.lineno)
+                res = []
+                for t in outs:
+                    c2 = ast.copy_location(ast.Call(func=c.func, args=[ast.copy_location(ast.Name(id='__hoisted', ctx=ast.Load()), c)], keywords=[]), c)
+                    res += s.call_stmt(c2, None, t, n.lineno)
+                return res
             return s.call_stmt(c, None, st, n.lineno)
         raise Unsupported('expression statement')
 
@@ -1429,6 +1550,14 @@ class VCGen:
     def st_Assign(s, n, st):
         if len(n.targets) != 1:
             raise Unsupported('chained assignment')
+        cut = s.cur.get('cut_before_assign')
+        if cut and isinstance(n.targets[0], ast.Name) and n.targets[0].id == cut:
+            # the contract covers the function up to this statement (the rest is outside this contract's scope)
+            for k, post in enumerate(s.cur.get('ensures_at_cut', [])):
+                s.oblige(st, f'at-cut#{k}', s.spec_eval(post, st, 1), n.lineno, 'post')
+            s.frame_obligations(st, n.lineno, 'cut')
+            s.cur['_cut_reached'] = True
+            return []
         if isinstance(n.value, ast.Call):
             return s.call_stmt(n.value, n.targets[0], st, n.lineno)
         v, t = s.ev(n.value, st)
@@ -1847,6 +1976,16 @@ class VCGen:
             q = s.resolve_function(f.id)
             if q is None and f.id in s.cur.get('constructors', {}):
                 q = s.cur['constructors'][f.id]
+        elif isinstance(f, ast.Attribute) and isinstance(f.value, ast.Call) and isinstance(f.value.func, ast.Name) and f.value.func.id == 'super':
+            # super().m(...): the same method of the base class, on the same object
+            mod_, cls_ = s.cur['name'].split('.')[0], s.cur['name'].split('.')[1]
+            cdef = s.modules[mod_].find(cls_)
+            base = cdef.bases[0].id if cdef is not None and cdef.bases else None
+            q = f'{mod_}.{base}.{f.attr}'
+            if q not in s.contracts:
+                raise Unsupported(f'no contract for {q}')
+            self_name = next(iter(s.cur['params']))
+            recv = st.env[self_name]
         elif isinstance(f, ast.Attribute) and not (isinstance(f.value, ast.Name) and f.value.id in ('math', 'random', 'time', 'copy', 'logging')):
             try_builtin = getattr(s, 'meth_' + f.attr, None)
             o, ot = s.ev(f.value, st)
@@ -1903,12 +2042,18 @@ class VCGen:
         cal = St()
         cal.pc = st.pc
         cal.heap, cal.lheap, cal.alloc_o, cal.alloc_l = st.heap, st.lheap, st.alloc_o, st.alloc_l
-        if recv is not None or k.get('constructor'):
-            if k.get('constructor'):
+        is_new = k.get('constructor') and recv is None
+        if recv is not None or is_new:
+            if is_new:
                 newo = st.alloc_o
                 st.alloc_o = st.alloc_o + 1
                 cal.alloc_o = st.alloc_o
                 cal.env[params[0][0]] = (newo, params[0][1])
+                cname = q.split('.')[1]
+                if '__class__' in st.heap and cname in s.class_tags:      # object creation fixes the class of the new object
+                    st.heap = dict(st.heap)
+                    st.heap['__class__'] = Store(st.heap['__class__'], newo, IntVal(s.class_tags[cname]))
+                    cal.heap = st.heap
             else:
                 cal.env[params[0][0]] = (recv[0], params[0][1])
             pi = 1
@@ -2012,7 +2157,7 @@ class VCGen:
             rv = fresh('ret', rt) if rt != NONE else BoolVal(False)
             if rt != NONE:
                 post.pc = post.pc + s.wf_facts(rv, rt)
-            if k.get('constructor'):
+            if is_new:
                 rv, rt = cal.env[params[0][0]]
             post.env['result'] = (rv, rt)
             for p in k.get('ensures', []):
@@ -2086,6 +2231,8 @@ class VCGen:
         # local variables assigned somewhere but not yet bound
         for t in s.block(fn.body, st):
             s.exit_normal(t, BoolVal(False), NONE, fn.body[-1].lineno)
+        if c.get('cut_before_assign') and not c.get('_cut_reached'):
+            raise ContractError(f'{qual}: the assignment to {c["cut_before_assign"]!r} that ends the contracted prefix was not found')
         info = dict(name=qual, src_hash=sha(mod.segment(fn)), contract_hash=sha(repr(sorted((k, repr(v)) for k, v in s.contracts[qual].items() if not k.startswith('_') and not callable(v)))),
                     lines=(fn.lineno, fn.end_lineno), n=len(s.obligs) - n0)
         return s.obligs[n0:], info
